@@ -28,7 +28,11 @@ CarriesAttrs == {"take_scalar_keepdims", "isel_scalar_keepdims", "take_scalar", 
                  "reindex_axis", "reindex_fill", "reindex_left", "reindex_right", "interp_axis", "interp_axis_oob"}
 Whole == {"add_ds", "mul_scalar", "rsub_scalar", "neg", "stack_ds", "concatenate_ds", "construct_misaligned",
           "add_ds_misaligned", "sub_ds_misaligned", "stack_ds_align", "stack_ds_align_sort_same", "concatenate_ds_align", "concatenate_ds_align_pos",
-          "concatenate_ds_mismatch"}
+          "concatenate_ds_mismatch", "to_array", "to_array_default", "to_array_keys", "to_array_roundtrip"}
+\* to_array: one DimArray over (key axis) + the Dataset's dims; the slice at key k is variable k broadcast *by name* onto the
+\* Dataset's axes (a variable lacking a dimension is repeated along it, one listing the dims in another order is transposed).
+\* to_array_roundtrip: to_dataset(axis=key axis) of that array gives back the keys, every variable on all the Dataset's dims.
+ToArray == {"to_array", "to_array_default", "to_array_keys", "to_array_roundtrip"}
 \* concatenate_ds_mismatch: the second Dataset carries the labels of x and y in another order (same lengths).  Without align=True
 \* a variable that has the concatenation dimension d and another of those dimensions cannot be joined: the call must be
 \* rejected, as concatenate() on that variable is.
@@ -48,7 +52,8 @@ Choose ==
        \/ \E o \in Whole :
             /\ in' = [vars |-> vs, op |-> o, d |-> IF Len(dd) > 0 THEN dd[1] ELSE "", byname |-> TRUE]
             /\ out' = [affected |-> [i \in 1..n |-> TRUE],
-                       dims |-> IF o \in {"stack_ds", "stack_ds_align", "stack_ds_align_sort_same"} THEN <<"k">> \o dd ELSE dd, attrs |-> FALSE, pervar |-> TRUE,
+                       dims |-> IF o \in {"stack_ds", "stack_ds_align", "stack_ds_align_sort_same", "to_array", "to_array_keys"} THEN <<"k">> \o dd
+                               ELSE IF o = "to_array_default" THEN <<"unnamed">> \o dd ELSE dd, attrs |-> FALSE, pervar |-> TRUE,
                        rejects |-> Rejects(o, vs, IF Len(dd) > 0 THEN dd[1] ELSE "")]
   /\ (Emit => PrintT(ToJson([op |-> "dataset_op", in |-> in', out |-> out'])))
 Next == Choose
